@@ -166,3 +166,37 @@ func H_C14_rt_two() {
 func H_C14T_noloss_comma()   { vSplitNoLoss(',', 7) }
 func H_C14T_noloss_slash()   { vSplitNoLoss('/', 7) }
 func H_C14T_rt_key_val_msg() { vC14One(true, true, 3, 6) }
+
+// several quoted segments: a comma inside any of them never splits
+func H_C14_two_quoted() {
+	q1 := vndString("q1", 2)
+	q2 := vndString("q2", 2)
+	mid := vndString("mid", 1)
+	vAssume(vNoByte(q1, '\''))
+	vAssume(vNoByte(q2, '\''))
+	vAssume(vNoByte(mid, '\''))
+	vAssume(vNoByte(mid, ','))
+	s := "re='" + q1 + "'|a" + mid + "'" + q2 + "' z"
+	parts := ValidNamesSplit(s)
+	vAssert(len(parts) == 1 && parts[0] == s, "C14 split: commas inside any single-quoted segment never split a rule")
+	two := ValidNamesSplit(s + ",to=1~2|'" + q2 + "'")
+	vAssert(len(two) == 2 && two[0] == s && two[1] == "to=1~2|'"+q2+"'", "C14 split: a comma between quoted segments splits exactly there")
+	vReach("end")
+}
+
+// results of earlier splits are not disturbed by later ones
+func H_C14_sequence() {
+	vPoolMode([]string{"lifo", "adversarial"}[vndChoice("pool", 2)])
+	q := vndString("q", 2)
+	vAssume(vNoByte(q, '\''))
+	vAssume(vNoByte(q, '|')) // '|' is the message delimiter
+	a := ValidNamesSplit("in=(a/'b," + q + "'/d)")
+	b := ValidNamesSplit("re='x," + q + "y',required")
+	c := ValidNamesSplit("'zz',p")
+	vAssert(len(a) == 1 && a[0] == "in=(a/'b,"+q+"'/d)", "C14 sequence: first result intact")
+	vAssert(len(b) == 2 && b[0] == "re='x,"+q+"y'" && b[1] == "required", "C14 sequence: second result intact")
+	vAssert(len(c) == 2 && c[0] == "'zz'" && c[1] == "p", "C14 sequence: third result")
+	k, v, _ := ParseValidNameKV(a[0])
+	vAssert(k == "in" && v == "(a/'b,"+q+"'/d)", "C14 sequence: parsed from the first result")
+	vReach("end")
+}
